@@ -133,7 +133,7 @@ func c20Text(items []c20Item) string {
 	return sb.String()
 }
 
-var c20Arity = map[string]int{"p": 1, "q": 1, "r": 0, "m": 1}
+var c20Arity = map[string]int{"p": 1, "q": 1, "r": 0, "m": 1, "d": 1}
 
 // c20Observe reads the implementation's database for the four predicates.
 func c20Observe(vm *VM) c20DB {
@@ -214,10 +214,10 @@ func c20Answers(vm *VM, name string) ([]byte, string) {
 //   4 discontiguous predicate with runs of 1..5 / 1..3 / 1..2 clauses
 func VH_C20(vm *VM, inst int) {
 	// earlier load (concrete): defines p/1, q/1 and multifile m/1
-	err0 := vm.Compile(context.Background(), ":- multifile(m/1). p(z). q(y). q(z). m(z).")
+	err0 := vm.Compile(context.Background(), ":- multifile(m/1). :- dynamic(d/1). p(z). q(y). q(z). m(z). d(z). d(y).")
 	verify(err0 == nil, "harness: the earlier load failed")
 	before := c20Observe(vm)
-	ref0 := c20DB{"p": {clauses: []byte{'z'}, defined: true}, "q": {clauses: []byte{'y', 'z'}, defined: true}, "m": {clauses: []byte{'z'}, defined: true, multifile: true}}
+	ref0 := c20DB{"p": {clauses: []byte{'z'}, defined: true}, "q": {clauses: []byte{'y', 'z'}, defined: true}, "m": {clauses: []byte{'z'}, defined: true, multifile: true}, "d": {clauses: []byte{'z', 'y'}, defined: true, dynamic: true}}
 	verify(c20Same(before, ref0, true), "harness: earlier load not as expected")
 
 	k := nondetUint8("k")
@@ -288,8 +288,14 @@ func VH_C20(vm *VM, inst int) {
 		if choice("alsop", 2) == 1 {
 			items = append(items, cl("p", k))
 		}
-		if choice("dynq", 2) == 1 {
-			items = append(items, decl("dynamic", "q")) // q/1 declared, no clauses: exists and is empty
+		// a predicate that is only declared, with no clauses: it exists and is empty, whatever it held before
+		switch choice("declonly", 4) {
+		case 1:
+			items = append(items, decl("dynamic", "q")) // was static with two clauses
+		case 2:
+			items = append(items, decl("dynamic", "d")) // was dynamic with two clauses: same flags as before
+		case 3:
+			items = append(items, decl("discontiguous", "q")) // was static: same dynamic/multifile flags as before
 		}
 	case 3:
 		items = append(items, c20Item{kind: 3, text: ":- initialization(assertz(init_ran))."}, cl("p", k))
